@@ -103,7 +103,8 @@ double max_herm_eig(const Mat& A){
 double fro(const Mat& A){ double s=0; for(unsigned i=0;i<A.d;i++) for(unsigned j=0;j<A.d;j++) s+=std::norm(A.m[i][j]); return std::sqrt(s); }
 
 struct Call{ int kind; unsigned n; Mat A; uint64_t bitseed; int bitmode,runmax; // kind 0: matrix_exponential
-             std::vector<double> vcomp,acomp; double s; };                           // kind 1: a.UTransform(v, i*s)
+             std::vector<double> vcomp,acomp; double s;                              // kind 1: a.UTransform(v, i*s)
+             std::vector<double> vdelta; };                                          // kind 2: the same, twice: v is updated in place (v += delta) between the calls
 struct CallResult{ int rc; std::string what; Mat X; std::vector<double> out; long draws; };
 
 // perform one call on the calling thread with its own bit stream
@@ -118,6 +119,14 @@ void perform(const Call& c,CallResult& r){
   }else{
     r.rc=lib_call([&]{
       squids::SU_vector a(c.acomp),v(c.vcomp);
+      if(c.kind==2){
+        // first call with the generator before the update: same object, same scale, other contents
+        squids::SU_vector v0(c.n); for(unsigned k=0;k<c.n*c.n;k++) v0[k]=c.vcomp[k]-c.vdelta[k];
+        v=v0;
+        squids::SU_vector first=a.UTransform(v,gsl_complex_rect(0.0,c.s));
+        squids::SU_vector d(c.vdelta); v+=d;
+        for(unsigned k=0;k<c.n*c.n;k++) v[k]=c.vcomp[k];      // exactly the values of the reference
+      }
       squids::SU_vector res=a.UTransform(v,gsl_complex_rect(0.0,c.s));
       r.out=res.GetComponents();
     });
@@ -139,8 +148,8 @@ struct ExpEngine: Engine{
     Json ops=Json::array();
     for(int i=0;i<nops;i++){
       Json o=Json::object();
-      bool ut=r.chance(0.25);
-      o["op"]=ut?"utransform":"exp";
+      bool ut=r.chance(0.3);
+      o["op"]=ut?(r.chance(0.35)?"utransform2":"utransform"):"exp";
       int n=(int)r.weighted({0,0,22,26,20,16,16}); o["n"]=n;
       int cls=(int)r.weighted({24,12,12,18,6,8,6,14}); o["cls"]=cls;
       // 1-norm: on both sides of every threshold, log-uniform otherwise
@@ -171,12 +180,12 @@ struct ExpEngine: Engine{
       int prev_n=0;
       for(size_t i=0;i<ops.size()&&i<32&&out.ok;i++){
         const Json& o=ops[i];
-        Call c; c.kind=o["op"].as_str()=="utransform"?1:0; c.n=(unsigned)std::max(2LL,std::min(6LL,o["n"].as_int(3)));
+        Call c; c.kind=o["op"].as_str()=="utransform"?1:(o["op"].as_str()=="utransform2"?2:0); c.n=(unsigned)std::max(2LL,std::min(6LL,o["n"].as_int(3)));
         int cls=(int)(o["cls"].as_int(0)%8); double norm=o["norm"].as_num(1.0); if(!(norm>=0)) norm=1.0; if(norm>1e3) norm=1e3;
         c.bitseed=(uint64_t)o["bitseed"].as_int(1); c.bitmode=(int)(o["bitmode"].as_int(0)&1); c.runmax=(int)std::max(1LL,std::min(64LL,o["runmax"].as_int(8)));
         c.s=o["s"].as_num(1.0); if(!(std::fabs(c.s)<1e3)) c.s=1.0;
         uint64_t vs=(uint64_t)o["vs"].as_int(1);
-        std::string kind=c.kind?"utransform":"exp";
+        std::string kind=c.kind==0?"exp":(c.kind==1?"utransform":"utransform2");
         if(trace_ops){ printf("O %zu %s C07\n",i,kind.c_str()); fflush(stdout); }
         alloc_tag((int)i);
         Mat Aexp(c.n),Vm(c.n),Am(c.n);
@@ -185,6 +194,7 @@ struct ExpEngine: Engine{
           // Hermitian V and A from components; the exponentiated matrix is i*s*V
           Rng r(vs); c.vcomp.resize(c.n*c.n); c.acomp.resize(c.n*c.n);
           for(size_t k=0;k<c.vcomp.size();k++){ c.vcomp[k]=r.uniform(-1,1); c.acomp[k]=r.uniform(-1,1); }
+          c.vdelta.resize(c.n*c.n); for(size_t k=0;k<c.vdelta.size();k++) c.vdelta[k]=r.uniform(-0.5,0.5);
           if(cls==4){ for(unsigned k=0;k<c.n*c.n;k++) if(k%(c.n+1)!=0 || k==0) {} }   // (diagonal V is reached through the components below)
           if(cls==4) for(unsigned idx=1;idx<c.n*c.n;idx++){ unsigned ii=idx/c.n,jj=idx%c.n; if(ii!=jj) c.vcomp[idx]=0; }
           Vm=from_components(c.n,&c.vcomp[0]); Am=from_components(c.n,&c.acomp[0]);
@@ -197,7 +207,7 @@ struct ExpEngine: Engine{
         bool diag=true; for(unsigned ii=0;ii<c.n;ii++) for(unsigned jj=0;jj<c.n;jj++) if(ii!=jj&&Aexp.m[ii][jj]!=cplx(0,0)) diag=false;
         char key[64]; snprintf(key,sizeof key,"probe_norm_band_%d",band); ctr.add(key); if(c.n==2) ctr.add("probe_size_2"); if(diag) ctr.add("probe_diagonal_input");
         if(c.bitmode==1) ctr.add("fault_identical_bit_runs_configured");
-        long tag[5]={c.kind,(long)c.n,cls,band,prev_n}; shape=fnv1a(tag,sizeof tag,shape); prev_n=(int)c.n;
+        long tag[5]={(long)c.kind,(long)c.n,cls,band,prev_n}; shape=fnv1a(tag,sizeof tag,shape); prev_n=(int)c.n;
         if(!diag) nontrivial=true;
         tr.ev("op#%zu %s n=%u cls=%d norm1=%.6g band=%d draws=%ld rc=%d",i,kind.c_str(),c.n,cls,n1,band,res.draws,res.rc);
         auto fail=[&](const std::string& cl,const std::string& sig,const std::string& d){ if(out.ok){ out.fail(cl,sig,"op#"+std::to_string(i)+" "+kind+": "+d); out.prop="C07"; } };
@@ -224,7 +234,7 @@ struct ExpEngine: Engine{
           // norm preservation and inversion by s -> -s
           double n0=0,n1v=0; Mat got=from_components(c.n,&res.out[0]); n0=fro(Am); n1v=fro(got);
           if(!(std::fabs(n0-n1v)<=tol*c.n)){ fail("utransform:norm","d"+std::to_string(c.n),"the transformation does not preserve the norm"); break; }
-          Call back=c; back.acomp=res.out; back.s=-c.s; CallResult rb; perform(back,rb);
+          Call back=c; back.kind=1; back.acomp=res.out; back.s=-c.s; CallResult rb; perform(back,rb);
           if(rb.rc!=CALL_OK){ fail("exp:threw","utransform-inverse","the inverse transformation threw \""+rb.what+"\""); break; }
           for(unsigned k=0;k<c.n*c.n;k++) if(!(std::fabs(rb.out[k]-c.acomp[k])<=2*tol)){ fail("utransform:inverse","d"+std::to_string(c.n),"s -> -s does not invert the transformation"); break; }
           if(!out.ok) break;
@@ -235,7 +245,7 @@ struct ExpEngine: Engine{
         t2.join();
         bool same=(fresh.rc==res.rc);
         if(same && c.kind==0) same=memcmp(&fresh.X.m[0][0],&res.X.m[0][0],sizeof res.X.m)==0;
-        if(same && c.kind==1) same=(fresh.out.size()==res.out.size() && memcmp(&fresh.out[0],&res.out[0],res.out.size()*sizeof(double))==0);
+        if(same && c.kind>=1) same=(fresh.out.size()==res.out.size() && memcmp(&fresh.out[0],&res.out[0],res.out.size()*sizeof(double))==0);
         if(!same){ fail("exp:history-dependent",kind,"the result after this history differs bit for bit from the result of the same call (same estimator bits) on a fresh thread"); break; }
         if(i>0) ctr.add("history_independence_checked");
       }
